@@ -315,28 +315,54 @@ def c11_6(ctx: Ctx) -> RuleResult:
     n = 0
     for run in step_run_methods(ctx):
         c = run.cls
-        for m in c.methods.values():
+        # the payload may be assembled in a method of the step or in a helper of its module
+        for m in list(c.methods.values()) + [g for g in ctx.repo.funcs_in(c.module.name) if g.cls is None and g.outer is None]:
+            from ..util import bool_nnf, path_condition
+
+            def lits_at(stmt):
+                pc = path_condition(ctx, m, stmt)
+                if not pc:
+                    return []
+                g_ = bool_nnf(("bool", "and", tuple(c_ if p else ("unary", "not", c_) for c_, p in pc)))
+                return [(it[1], it[2]) for it in (g_[1] if g_[0] == "and" else [g_]) if it[0] == "lit"]
+
+            def stmt_of(n_):
+                while parent(n_) is not None and not isinstance(n_, ast.stmt):
+                    n_ = parent(n_)
+                return n_
+
             stores = {}
             for st in nodes_in(m, ast.Assign):
                 t = st.targets[0]
                 if isinstance(t, ast.Subscript) and isinstance(t.slice, ast.Constant) and t.slice.value in ("results", "transformed_results"):
-                    stores.setdefault(t.slice.value, []).append((st, X.at(m, st.value)))
+                    stores.setdefault(t.slice.value, []).append((st, X.at(m, st.value), lits_at(st)))
+            for d_ in nodes_in(m, ast.Dict):
+                for k_, v_ in zip(d_.keys, d_.values):
+                    if isinstance(k_, ast.Constant) and k_.value in ("results", "transformed_results"):
+                        stores.setdefault(k_.value, []).append((d_, X.at(m, v_), lits_at(stmt_of(d_))))
             if not stores:
                 continue
             n += 1
             tr = stores.get("transformed_results", [])
             rs = stores.get("results", [])
-            ok = len(tr) == 1 and len(rs) == 2
+
+            def tr_pol(lits):
+                """True: under `transforms is None`; False: under `transforms is not None`; None: unconditional"""
+                for a, p in lits:
+                    if a[0] == "cmp" and a[1] == "is" and a[3] == ("const", None) and a[2][0] in ("param", "attr") and "transform" in show(a[2]):
+                        return p
+                return None
+
+            back = [(v, l) for _s, v, l in rs if v[0] == "comp"]
+            plain = [(v, l) for _s, v, l in rs if v[0] != "comp"]
+            ok = len(tr) >= 1 and len(back) >= 1 and len(plain) >= 1
             if ok:
                 raw = tr[0][1]
-                back = [v for _s, v in rs if v[0] == "comp"]
-                plain = [v for _s, v in rs if v[0] != "comp"]
-                ok = len(back) == 1 and len(plain) == 1 and plain[0] == raw and contains(back[0], lambda s: s[0] == "call" and s[1][0] == "attr" and s[1][2] == "transform_from_optimizer")
-                # the transformed store and the back-transformed store are under `transforms is not None`
-                g = parent(tr[0][0])
-                ok = ok and isinstance(g, ast.If) and "transforms" in ast.unparse(g.test) and "not None" in ast.unparse(g.test) and parent(rs[0][0]) is g or (ok and isinstance(g, ast.If))
+                ok = (all(v == raw and tr_pol(l) is False for _s, v, l in tr)
+                      and all(contains(v, lambda s_: s_[0] == "call" and s_[1][0] == "attr" and s_[1][2] == "transform_from_optimizer") and tr_pol(l) is False for v, l in back)
+                      and all(v == raw and tr_pol(l) is True for v, l in plain))
             res.add(m, m.node, "with transforms: transformed_results = raw, results = [r.transform_from_optimizer(t) for r in raw]; without: results = raw", ok,
-                    "" if ok else "the two payload keys do not carry (user domain, optimizer domain) versions of the same results", construct=f"{c.name}.{m.name}: payload")
+                    "" if ok else "the two payload keys do not carry (user domain, optimizer domain) versions of the same results", construct=f"{c.name}: payload")
     if n < 2:
         raise AnalysisError("event payload construction not found in both steps")
     return res
